@@ -60,6 +60,7 @@ func ruleC17(w *World, r *Report) {
 	r.Explanation = "R17.1 isWildcardMatch/isExactMatch/isRangeMatch only compare low/high with each other, 0 and 65535 (structural premise), so evaluating the extracted predicates over representatives of every order class of (low, high, 0, 65535) is exhaustive: exactly one class holds, wildcard only for (0,65535) and (0,0), exact only for low==high!=0; Width() equals high-low+1 without wrap for every non-wildcard non-inverted class; " +
 		"R17.2 every error return of the three conversion functions returns no rules; the Cartesian product's dispatch (both ranges→error; one range→Exact expansion × trivial other side; none→one rule) by path enumeration, the rule literals take src fields from the src side and dst from the dst side; the Exact arm is guarded by a Width() bound; " +
 		"R17.3 the Exact expansion is a counting loop from zext(low) to zext(high) inclusive, step 1, in a type wider than 16 bits, appending {trunc(iv), 0xFFFF} once per iteration; R17.4 parsePort rejects low > high before constructing the range and parses with bit size 16."
+	r.Explanation += " R17.6 the BESS PDR workers signal completion once, after the last entry; R17.7 the UP4 applications entry omits the port range field exactly for isWildcardMatch() ranges (guard evaluated over all valuations of low/high atoms)."
 	r.NotDecided = "cover exactness of the Ternary strategy (bit arithmetic over 2^32 inputs; not used by CreatePortRangeCartesianProduct)"
 	isW := w.Fn(P, "pfcpiface.(portRange).isWildcardMatch")
 	isE := w.Fn(P, "pfcpiface.(portRange).isExactMatch")
@@ -244,6 +245,8 @@ func ruleC17(w *World, r *Report) {
 	}, successReturns(cart), "refuses the pair")
 	r.floor("R17.2 conversion calls in the Cartesian product", nE, 3)
 	portRuleConsumers(w, r, "R17.5", cart)
+	ruleC17DoneOnce(w, r)
+	ruleC17UP4Range(w, r)
 
 	// ---- asComplexTernaryMatches: fast paths, strategy guard and loop shape
 	ruleC17Complex(w, r, complexF, isW, isE, isR, width, exactUn)
@@ -1000,4 +1003,113 @@ func portRuleConsumers(w *World, r *Report, rule string, cart *ssa.Function) {
 		}, func(i ssa.Instruction) bool { return isCallTo(i, proc) }, "installs nothing")
 	}
 	r.floor("R17.5 consumers of the expansion", n, 2)
+}
+
+// ruleC17DoneOnce (R17.6): the BESS workers report completion once per PDR, after the last entry of the
+// expansion was written. SendMsgToUPF counts one `done` per rule and cancels the shared context when it
+// has them all: a worker that signals inside its per-entry loop is cut off after the first entry of a
+// range (the rest of the expansion never reaches pdrLookup) and then blocks on its next signal.
+func ruleC17DoneOnce(w *World, r *Report) {
+	const P = "C17"
+	n := 0
+	for _, name := range []string{"pfcpiface.(*bess).addPDR", "pfcpiface.(*bess).delPDR"} {
+		f := w.Fn(P, name)
+		proc := w.Fn(P, "pfcpiface.(*bess).processPDR")
+		for _, g := range withClosures(f) {
+			allInstrs(g, func(i ssa.Instruction) {
+				s, ok := i.(*ssa.Send)
+				if !ok || !strings.Contains(symOf(s.Chan).String(), "done") {
+					return
+				}
+				n++
+				again := reach(g, i, func(j ssa.Instruction) bool { return j == i }, nil, nil)
+				r.check(again == nil, "R17.6", w.FuncName(g), "completion is signalled once per PDR", w.Pos(s.Pos()), "not in a loop", "the completion signal is sent inside the per-entry loop: the dispatcher takes the first signal for the whole PDR and cancels the context, the remaining entries of the port expansion are never written (and the worker blocks on its second signal)")
+				later := reach(g, i, func(j ssa.Instruction) bool { return isCallTo(j, proc) }, nil, nil)
+				r.check(later == nil, "R17.6", w.FuncName(g), "completion is signalled after the last entry was written", w.Pos(s.Pos()), "no datapath write follows", "an entry of the expansion is written after completion was signalled")
+			})
+		}
+	}
+	r.floor("R17.6 completion signals of the PDR workers", n, 2)
+}
+
+// ruleC17UP4Range (R17.7): on UP4 the application port is a RANGE field; leaving the field out means
+// "any port". BuildApplicationsTableEntry leaves it out exactly for the port range that means "no port
+// constraint" — isWildcardMatch(): 0-65535 or the unset 0-0 — and writes low..high otherwise. The guard is
+// evaluated for every valuation of its atoms (the isWildcardMatch() call, or comparisons of low / high
+// with 0 and 65535), whatever its spelling.
+func ruleC17UP4Range(w *World, r *Report) {
+	const P = "C17"
+	f := w.Fn(P, "pfcpiface.(*P4rtTranslator).BuildApplicationsTableEntry")
+	fn := w.FuncName(f)
+	rangeF := w.Fn(P, "pfcpiface.(*P4rtTranslator).withRangeMatchField")
+	isWild := w.Fn(P, "pfcpiface.(portRange).isWildcardMatch")
+	var call ssa.Instruction
+	for _, c := range callsTo(f, rangeF) {
+		call = c.(ssa.Instruction)
+		lo, hi := symOf(c.Common().Args[len(c.Common().Args)-2]).String(), symOf(c.Common().Args[len(c.Common().Args)-1]).String()
+		r.check(strings.Contains(lo, ".low") && !strings.Contains(lo, ".high") && strings.Contains(hi, ".high") && !strings.Contains(hi, ".low"), "R17.7", fn, "the range field carries low..high of the application port range", w.Pos(c.Pos()), lo+" .. "+hi, "the range field is written as "+lo+" .. "+hi)
+	}
+	if call == nil {
+		r.bad("R17.7", fn, "the application port is written as a range field", w.Pos(f.Pos()), "withRangeMatchField is not called: every port constraint is dropped")
+		return
+	}
+	// atoms
+	type val struct{ W, L0, H0, HM bool }
+	atomOf := func(a, b *ssa.BasicBlock, v val) (decided, taken bool) {
+		if c, truth, ok := boolEdge(a, b); ok {
+			if cc, isCall := c.(*ssa.Call); isCall && staticCallee(cc) == isWild {
+				return true, v.W == truth
+			}
+		}
+		x, op, y, ok := edgeFact(a, b)
+		if !ok {
+			return false, true
+		}
+		k, isK := constInt(y)
+		if !isK {
+			return false, true
+		}
+		s := symOf(x).String()
+		var at bool
+		switch {
+		case strings.Contains(s, ".low") && !strings.Contains(s, ".high") && k == 0:
+			at = v.L0
+		case strings.Contains(s, ".high") && !strings.Contains(s, ".low") && k == 0:
+			at = v.H0
+		case strings.Contains(s, ".high") && !strings.Contains(s, ".low") && k == 65535:
+			at = v.HM
+		default:
+			return false, true
+		}
+		switch op {
+		case token.EQL:
+			return true, at
+		case token.NEQ:
+			return true, !at
+		}
+		return false, true
+	}
+	n := 0
+	for m := 0; m < 8; m++ {
+		v := val{L0: m&1 != 0, H0: m&2 != 0, HM: m&4 != 0}
+		if v.H0 && v.HM {
+			continue
+		}
+		v.W = v.L0 && (v.H0 || v.HM)
+		n++
+		cut := func(a, b *ssa.BasicBlock) bool {
+			decided, taken := atomOf(a, b, v)
+			return decided && !taken
+		}
+		isCall := func(i ssa.Instruction) bool { return i == call }
+		reached := reach(f, nil, isCall, nil, cut) != nil
+		skipped := reach(f, nil, successReturns(f), isCall, cut) != nil
+		desc := fmt.Sprintf("port range with low%s0, high%s", ifelse(v.L0, "=", "≠"), ifelse(v.HM, "=65535", ifelse(v.H0, "=0", " in 1..65534")))
+		if v.W {
+			r.check(!reached, "R17.7", fn, desc+": no port constraint, the range field is left out", w.Pos(call.Pos()), "field omitted", "a range field is written for the unconstrained port range")
+		} else {
+			r.check(reached && !skipped, "R17.7", fn, desc+": the range field is written", w.Pos(call.Pos()), "field present on every successful path", "for a "+desc+" the applications entry is built without the app_l4_port field: a range that touches 0 or 65535 is replaced by 'any port'")
+		}
+	}
+	r.floor("R17.7 valuations of the port-range guard", n, 6)
 }
